@@ -60,6 +60,7 @@ type result struct {
 	same   bool
 	remeas int // how many times the child repeated an over-bound allocation measurement
 	depth  int // deepest list nesting among the returned items
+	budget time.Duration // for TIMEOUT: the allowance that expired
 }
 
 type limits struct {
@@ -85,9 +86,23 @@ const chunkSize = 4000
 
 var crashNotes []string
 
+// lastBudget is the allowance that expired for the most recent TIMEOUT outcome (for the report).
+var lastBudget time.Duration
+
+// maxTimeouts: after this many confirmed non-terminations the pass stops (the remaining cases are
+// not run; every timeout is a reported failing input, and the check must stay bounded).
+const maxTimeouts = 5
+
+// caseBudget is the wall-clock allowance for ONE call: the model's step bound is polynomial in the
+// input length with small constants (microseconds for kilobytes on the real parser); 5 s plus 20 s
+// per MB is orders of magnitude above anything a terminating parse needs.
+func caseBudget(k kase) time.Duration {
+	return 5*time.Second + time.Duration(float64(len(k.input))/(1<<20)*20*float64(time.Second))
+}
+
 func runProtected(cases []kase, lim limits, tmp string) ([]result, error) {
 	results := make([]result, 0, len(cases))
-	crashes := 0
+	crashes, timeouts := 0, 0
 	for len(results) < len(cases) {
 		rest := cases[len(results):]
 		if len(rest) > chunkSize {
@@ -119,7 +134,14 @@ func runProtected(cases []kase, lim limits, tmp string) ([]result, error) {
 		if crashes > 200 {
 			return nil, fmt.Errorf("more than 200 confirmed child crashes in one pass")
 		}
-		results = append(results, result{out: why, same: true})
+		results = append(results, result{out: why, same: true, budget: lastBudget})
+		if strings.HasPrefix(why, "TIMEOUT") {
+			timeouts++
+			if timeouts >= maxTimeouts {
+				crashNotes = append(crashNotes, fmt.Sprintf("pass stopped after %d confirmed non-terminations: %d of %d cases not run", timeouts, len(cases)-len(results), len(cases)))
+				break
+			}
+		}
 	}
 	return results, nil
 }
@@ -151,8 +173,58 @@ func runChunk(rest []kase, lim limits, tmp string) ([]result, bool, string, erro
 	var stderr bytes.Buffer
 	cmd.Stderr = &limitedWriter{buf: &stderr, max: 1 << 16}
 	cmd.Stdout = nil
-	runErr := cmd.Run()
-	timedOut := ctx.Err() != nil
+	if err := cmd.Start(); err != nil {
+		cancel()
+		return nil, false, "", err
+	}
+	done := make(chan error, 1)
+	go func() { done <- cmd.Wait() }()
+	// watch the result file: the child writes "B i" before a call and "R i ..." after it. A call
+	// that has begun and not returned within caseBudget is a non-termination: kill the child.
+	stalled := false
+	var runErr error
+	{
+		var off int64
+		nB, nR := 0, 0
+		var lastB time.Time
+		tick := time.NewTicker(100 * time.Millisecond)
+	watch:
+		for {
+			select {
+			case runErr = <-done:
+				break watch
+			case <-tick.C:
+				if f, err := os.Open(resf); err == nil {
+					if fi, err := f.Stat(); err == nil && fi.Size() > off {
+						buf := make([]byte, fi.Size()-off)
+						if n, _ := f.ReadAt(buf, off); n > 0 {
+							// only complete lines
+							if j := bytes.LastIndexByte(buf[:n], '\n'); j >= 0 {
+								for _, ln := range bytes.Split(buf[:j], []byte{'\n'}) {
+									if bytes.HasPrefix(ln, []byte("B ")) {
+										nB++
+										lastB = time.Now()
+									} else if bytes.HasPrefix(ln, []byte("R ")) {
+										nR++
+									}
+								}
+								off += int64(j + 1)
+							}
+						}
+					}
+					f.Close()
+				}
+				if nB > nR && nB-1 < len(rest) && time.Since(lastB) > caseBudget(rest[nB-1]) {
+					stalled = true
+					cmd.Process.Kill()
+					runErr = <-done
+					break watch
+				}
+			}
+		}
+		tick.Stop()
+	}
+	timedOut := stalled || ctx.Err() != nil
 	cancel()
 	var results []result
 	begun := -1
@@ -192,6 +264,7 @@ func runChunk(rest []kase, lim limits, tmp string) ([]result, bool, string, erro
 	switch {
 	case timedOut:
 		out = "TIMEOUT"
+		lastBudget = caseBudget(rest[len(results)])
 	case strings.Contains(es, "stack overflow") || strings.Contains(es, "stack exceeds"):
 		out = "CRASH stack"
 	case strings.Contains(es, "out of memory") || strings.Contains(es, "cannot allocate memory"):
@@ -306,7 +379,7 @@ func checkOracle(c *vh.Ctx, k kase, r result) {
 		c.Fail(what, d)
 		return
 	case f[0] == "TIMEOUT":
-		c.Fail("timeout: no result within the wall-clock limit", d)
+		c.Fail(fmt.Sprintf("termination: parser did not return within %s on a %d-byte input (child killed, confirmed on a fresh child)", r.budget.Round(time.Second), len(k.input)), d)
 		return
 	}
 	if !r.same {
@@ -436,22 +509,32 @@ func main() {
 			os.RemoveAll(tmp)
 			os.Exit(2)
 		}
-		for i, k := range cases {
+		for i := range rs { // shorter than cases only if the pass stopped after maxTimeouts
+			k := cases[i]
 			checkOracle(c, k, rs[i])
 			emit(c, k, rs[i], lim)
 		}
 		for _, n := range crashNotes {
 			c.Note(n)
 		}
+		c.Note(fmt.Sprintf("per-call wall-clock budget 5 s + 20 s/MB of input, watched by the parent on the child's result file; a call that does not return is killed, confirmed on a fresh child and reported as a termination failure; the pass stops after %d of them", maxTimeouts))
 		c.Note("diff pass: every sml call ran in a child under ulimit -v 4 GiB (a fresh child per 4000 cases), 600 s wall clock per child; allocBound(len) = 4096 + 256*len + len^2 bytes")
 	case "hostile":
 		hs := append(hostileCases(c.Tier), familyHostile(c.Tier)...)
-		for _, h := range hs {
+		hostileTimeouts := 0
+		for hi, h := range hs {
+			if hostileTimeouts >= maxTimeouts {
+				c.Note(fmt.Sprintf("hostile pass stopped after %d non-terminations: %d of %d inputs not run", hostileTimeouts, len(hs)-hi, len(hs)))
+				break
+			}
 			rs, err := runProtected([]kase{h.k}, h.lim, tmp)
 			if err != nil {
 				fmt.Fprintln(os.Stderr, "harness:", err)
 				os.RemoveAll(tmp)
 				os.Exit(2)
+			}
+			if strings.HasPrefix(rs[0].out, "TIMEOUT") {
+				hostileTimeouts++
 			}
 			checkOracle(c, h.k, rs[0])
 			emit(c, h.k, rs[0], h.lim)
